@@ -412,6 +412,31 @@ def absoluteBlock (st : AbsStyle) (cb : Rect) (ltr : Bool) (staticX staticY minC
       let mb := autoZero rv.1.mb
       .ok ⟨x, y, w + hb.pb + ml + mr, h + vb.pb + mt + mb, w, h, ml, mr, mt, mb⟩
 
+/-- `absolute_box_layout` for a replaced box whose `width` / `height` are specified (px or %):
+percentages are resolved against the containing rectangle, `inline_replaced_box_width_height` keeps the
+specified sizes, then `absolute_replaced`.  `none` sizes (auto) are outside this model (C13). -/
+def absoluteReplacedDoc (st : AbsStyle) (cb : Rect) (ltr : Bool) (staticX staticY : Rat) :
+    Except PyErr AbsResult :=
+  match st.width.resolve cb.w, st.height.resolve cb.h with
+  | some w, some h =>
+    let rb : RBox := {
+      left := st.left.resolve cb.w, right := st.right.resolve cb.w,
+      top := st.top.resolve cb.h, bottom := st.bottom.resolve cb.h,
+      ml := st.ml.resolve cb.w, mr := st.mr.resolve cb.w, mt := st.mt.resolve cb.w, mb := st.mb.resolve cb.w,
+      width := w, height := h,
+      pl := autoZero (st.pl.resolve cb.w), pr := autoZero (st.pr.resolve cb.w), bl := st.bl, br := st.br,
+      pt := autoZero (st.pt.resolve cb.w), pbot := autoZero (st.pbot.resolve cb.w), bt := st.bt, bb := st.bb,
+      posX := staticX, posY := staticY }
+    match absoluteReplaced rb ltr cb.x cb.y cb.w cb.h with
+    | .error e => .error e
+    | .ok r =>
+      let ml := autoZero r.ml
+      let mr := autoZero r.mr
+      let mt := autoZero r.mt
+      let mb := autoZero r.mb
+      .ok ⟨r.posX, r.posY, r.borderWidth + ml + mr, r.borderHeight + mt + mb, w, h, ml, mr, mt, mb⟩
+  | _, _ => .error (.valueError "auto-size-not-modelled")
+
 /-! ### `relative_positioning` (layout/block.py) -/
 
 /-- The part of a box `relative_positioning` looks at. -/
